@@ -182,7 +182,7 @@ static void c14_type(Reporter& R, const std::string& name, uint64_t id) {
     if (M <= 400) {
       for (size_t i = 0; i < M && ok; ++i) for (size_t j = 0; j < M && ok; ++j) ok = check_pair(i, j);
     } else {
-      const long long np = g_args->n("pairs", g_args->thorough() ? 200000 : 4000);
+      const long long np = g_args->n("pairs", g_args->thorough() ? 200000 : 20000);
       for (long long k = 0; k < np && ok; ++k) {
         const size_t i = rng.below(M);
         // half of the pairs come from the same family (neighbours in generation order): ties in leading slots
@@ -192,7 +192,7 @@ static void c14_type(Reporter& R, const std::string& name, uint64_t id) {
     }
     if (!ok) return;
     // transitivity on the library's own operators
-    const long long nt = g_args->n("triples", g_args->thorough() ? 200000 : 2000);
+    const long long nt = g_args->n("triples", g_args->thorough() ? 200000 : 10000);
     for (long long k = 0; k < nt; ++k) {
       const X &a = objs[rng.below(M)], &b = objs[rng.below(M)], &c = objs[rng.below(M)];
       R.eval();
@@ -283,7 +283,7 @@ static void c16_pair(Reporter& R, const std::string& name, uint64_t id) {
   if constexpr (has_ctor || has_assign) {
     constexpr bool direction = is_direction<Q1>::value;
     Rng rng(mix(mix(g_args->seed, 0xC16), mix(id, Num<T1>::idx * 3 + Num<T2>::idx)));
-    const int reps = static_cast<int>(g_args->n("values", g_args->thorough() ? 2000 : 48));
+    const int reps = static_cast<int>(g_args->n("values", g_args->thorough() ? 2000 : 200));
     R.crumb(key);
     guarded(R, key, [&] {
       for (int rep = 0; rep < reps; ++rep) {
@@ -333,7 +333,10 @@ static void c16_pair(Reporter& R, const std::string& name, uint64_t id) {
           if (!judge(Q2(q1), "constructor")) return;
         }
         if constexpr (has_assign) {
-          Q2 q2 = V2::make(std::array<T2, N>{});
+          // the target already holds an unrelated non-zero value: assignment must replace it, not combine with it
+          std::array<T2, N> junk;
+          for (auto& v : junk) v = static_cast<T2>(rng.logu<double>(-3, 3, true));
+          Q2 q2 = V2::make(junk);
           q2 = q1;
           if (!judge(q2, "assignment")) return;
         }
@@ -408,7 +411,7 @@ static void c17_type(Reporter& R, const std::string& name, uint64_t id) {
   if constexpr (sizeof(Q) == N * sizeof(T) && std::is_trivially_copyable_v<Q>) {
     Rng rng(mix(mix(g_args->seed, 0xC17), mix(id, Num<T>::idx)));
     guarded(R, key, [&] {
-      const int reps = static_cast<int>(g_args->n("probes", g_args->thorough() ? 400 : 24));
+      const int reps = static_cast<int>(g_args->n("probes", g_args->thorough() ? 400 : 100));
       for (int rep = 0; rep < reps; ++rep) {
         // (b) no constructor leaves a slot unwritten, and slot i lives at byte offset i*sizeof(T)
         alignas(16) unsigned char buf[sizeof(Q)];
